@@ -35,6 +35,9 @@ pub struct Case {
     /// poisoned-neighbour relation: (position key of the replaced non-last row, variant/feature selector)
     #[serde(default)]
     pub poison: (u16, u8),
+    /// big-batch stratum: (size group 1..=6, 0 = no big batch in this case; position inside the group)
+    #[serde(default)]
+    pub big: (u8, u16),
 }
 
 #[derive(Clone, Copy, Debug, PartialEq)]
@@ -65,6 +68,14 @@ fn elem(f: Flavor) -> BoxedStrategy<f64> {
     }
 }
 
+/// one case in 40 carries a big batch (quick: 250 per predictor family, thorough: 2500)
+fn big_strategy(_tier: Tier) -> impl Strategy<Value = (u8, u16)> {
+    prop_oneof![
+        39 => Just((0u8, 0u16)),
+        1 => (1u8..=6, any::<u16>()),
+    ]
+}
+
 fn matrix(n: usize, p: usize, f: Flavor) -> impl Strategy<Value = Vec<Vec<f64>>> {
     proptest::collection::vec(proptest::collection::vec(elem(f), p), n)
 }
@@ -86,9 +97,9 @@ pub fn case_strategy(tier: Tier, dom: Dom) -> impl Strategy<Value = Case> {
             proptest::collection::vec(any::<u16>(), m),
             proptest::collection::vec(any::<u16>(), 0..=(2 * m).min(24)),
             any::<[u8; 3]>(),
-            (any::<u64>(), any::<u8>(), (any::<u16>(), any::<u8>())),
+            (any::<u64>(), any::<u8>(), (any::<u16>(), any::<u8>()), big_strategy(tier)),
         )
-            .prop_map(|(train, w, noise, fresh, picks, perm, dup, opt, (seed, junk, poison))| Case {
+            .prop_map(|(train, w, noise, fresh, picks, perm, dup, opt, (seed, junk, poison, big))| Case {
                 train,
                 w,
                 noise,
@@ -100,6 +111,7 @@ pub fn case_strategy(tier: Tier, dom: Dom) -> impl Strategy<Value = Case> {
                 seed,
                 junk,
                 poison,
+                big,
             })
     })
 }
@@ -376,4 +388,40 @@ pub fn poison_row(row: &[f64], selector: u8) -> (&'static str, Vec<f64>) {
         }
     }
     (label, r)
+}
+
+/// Batch sizes around plausible internal block sizes. Group 1..=5: the ranges 257..=300, 1000..=1100,
+/// 1025..=1500, 2049..=2100, 4097..=4200; group 6: B-1, B, B+1, 2B-1, 2B, 2B+1 for B in 256, 512, 1024, 2048, 4096.
+pub fn big_size(group: u8, key: u16) -> Option<(&'static str, usize)> {
+    let range = |lo: usize, hi: usize| lo + idx(key, hi - lo + 1);
+    match group {
+        1 => Some(("big_batch_257_300", range(257, 300))),
+        2 => Some(("big_batch_1000_1100", range(1000, 1100))),
+        3 => Some(("big_batch_1025_1500", range(1025, 1500))),
+        4 => Some(("big_batch_2049_2100", range(2049, 2100))),
+        5 => Some(("big_batch_4097_4200", range(4097, 4200))),
+        6 => {
+            let mut v = vec![];
+            for b in [256usize, 512, 1024, 2048, 4096] {
+                v.extend([b - 1, b, b + 1, 2 * b - 1, 2 * b, 2 * b + 1]);
+            }
+            v.sort_unstable();
+            v.dedup();
+            Some(("big_batch_block_multiple_pm1", v[idx(key, v.len())]))
+        }
+        _ => None,
+    }
+}
+
+/// `n` indices into `0..m`, pseudo-random (not periodic, so that a shifted block cannot line up with
+/// the tiling), derived from the case seed; and a shuffled copy of the same multiset.
+pub fn big_indices(seed: u64, n: usize, m: usize) -> (Vec<usize>, Vec<usize>) {
+    let mut rng = vengine::gen::SplitMix(seed ^ 0x6269_675f_6261_7463);
+    let a: Vec<usize> = (0..n).map(|_| rng.below(m)).collect();
+    let mut b = a.clone();
+    for i in (1..b.len()).rev() {
+        let j = rng.below(i + 1);
+        b.swap(i, j);
+    }
+    (a, b)
 }
